@@ -78,7 +78,7 @@ PROPS = {
                                         gen.gen_name_length_cases(seed + 5, 1500 if tier == 'thorough' else 250)), flavours=['c', 'cxx'],
                 rule='the case families of C01, C07, C14/C15 and C11 plus grammars with hundreds of symbols (C++ containers grow past their initial sizes) are run through libyaep and through class yaep (libyaep++); the two observation streams (return codes, messages, callbacks, flags, exported trees, free_tree traces, hook dumps) must be identical line by line, and both are judged against the same Lean model',
                 assumptions=COMMON_ASSUME + ['cxx_methods_forward is about the method bodies the translator extracts from yaep.cpp (regex-based, checked for one statement per method); that yaep.cpp includes yaep.c compiled as C++ and uses the C++ containers is covered by the stream comparison, not by a theorem']),
-    'C12': dict(level='exploration', theorem_modules=['C01', 'C19', 'CodeTable', 'TermSet'], min_theorems=4, tags=['C12'], crash_counts=True,
+    'C12': dict(level='exploration', theorem_modules=['C01', 'C19', 'CodeTable', 'TermSet', 'SitTable'], min_theorems=4, tags=['C12'], crash_counts=True,
                 gen=lambda seed, tier: (gen.gen_hostile_cases(seed, 30000 if tier == 'thorough' else 2500) +
                                         gen.gen_parse_cases(seed + 1, 6000 if tier == 'thorough' else 400, 'C07', maxlen=9) +
                                         gen.gen_parse_cases(seed + 2, 6000 if tier == 'thorough' else 400, 'C04') +
@@ -95,7 +95,7 @@ PROPS = {
                                        gen.gen_parse_cases(seed + 7, 6000 if tier == 'thorough' else 1500, 'C13'), flavours=['c'],
                 rule='every caller-side parse_alloc / parse_free / termcb event of every parse is logged with block ids: frees must hit live blocks of the same parse exactly once, everything reachable from the root must lie in live blocks (walk before and after yaep_free_grammar under ASan with real frees), yaep_free_tree must release all blocks of the parse and call termcb once per TERM node; definitions are handed over as heap copies that are scribbled and freed right after the defining call',
                 assumptions=COMMON_ASSUME + ['that the C pointer graph is the exported node table is observed, not proved; partial: memory effects are runtime truth (ASan)']),
-    'C14': dict(level='proof', theorem_modules=['C14'], min_theorems=8, tags=['C14', 'C15', 'C01', 'C02', 'C05', 'C06', 'C07', 'C10', 'C13', 'C09'], crash_counts=True,
+    'C14': dict(level='proof', theorem_modules=['C14', 'SitTable'], min_theorems=8, tags=['C14', 'C15', 'C01', 'C02', 'C05', 'C06', 'C07', 'C10', 'C13', 'C09'], crash_counts=True,
                 gen=lambda seed, tier: gen.gen_history_cases(seed, 12000 if tier == 'thorough' else 2400), flavours=['c'],
                 rule='random histories of <= 40 API calls over up to 3 live grammar objects (create, set, define good/defective, redefine, parse with sentences / non-sentences / invalid codes / NULL allocators, error queries, free_tree, free in any order); every return value, callback and tree is compared with the history-free model (a function of the object definition and settings only); library allocator accounting must be zero after all objects are freed',
                 assumptions=COMMON_ASSUME + ['the model is history-free by construction (Model/Api.lean); any deviation of any call is therefore a history dependence']),
